@@ -116,10 +116,35 @@ def is_scalar(v):
 
 
 # ------------------------------------------------------------------------------------------ state
+def _trivially_true(c):
+    try:
+        if isinstance(c, bool):
+            return c
+        return z3.is_true(c) or z3.is_true(z3.simplify(c))
+    except Exception:  # noqa: BLE001
+        return False
+
+
+class PC(list):
+    """Path condition: constraints that simplify to `true` (comparisons of concrete values in long concrete loops) are not stored."""
+
+    def append(self, c):
+        if not _trivially_true(c):
+            list.append(self, c)
+
+    def extend(self, cs):
+        for c in cs:
+            self.append(c)
+
+    def __iadd__(self, cs):
+        self.extend(cs)
+        return self
+
+
 class State:
     def __init__(self):
         self.env = {}
-        self.pc = []
+        self.pc = PC()
         self.events = []
         self.visits = {}
         self.defs = {}
@@ -131,7 +156,8 @@ class State:
     def fork(self):
         s = State()
         s.env = dict(self.env)
-        s.pc = list(self.pc)
+        s.pc = PC()
+        list.extend(s.pc, self.pc)
         s.events = list(self.events)
         s.visits = dict(self.visits)
         s.defs = dict(self.defs)
@@ -249,6 +275,14 @@ class Exec:
     # ---- satisfiability
     def feasible(self, pc, extra=None):
         import time
+        if extra is not None and z3.is_expr(extra):
+            # a path condition is only ever extended after a feasibility check, so it is satisfiable by construction:
+            # a literal `true` / `false` (concrete comparison) needs no solver call
+            e = z3.simplify(extra)
+            if z3.is_true(e) and isinstance(pc, PC):
+                return True
+            if z3.is_false(e):
+                return False
         s = z3.Solver()
         s.set("timeout", 60000)
         s.add(pc)
@@ -546,6 +580,12 @@ class Exec:
                 if isinstance(val, tuple) and isinstance(val[0], int):
                     return bv(val[0], INT_W[val[1]]), val[1]
                 return val, None
+        mm = re.search(r"num::<impl ([ui](?:\d+|size))>::(MAX|MIN)$", c)
+        if mm and mm.group(1) in INT_W:
+            w, t = INT_W[mm.group(1)], mm.group(1)
+            if t in SIGNED:
+                return bv((1 << (w - 1)) - 1 if mm.group(2) == "MAX" else -(1 << (w - 1)), w), t
+            return bv((1 << w) - 1 if mm.group(2) == "MAX" else 0, w), t
         if c.startswith("ZeroSized"):
             return Opaque("zst"), None
         pm = re.search(r"promoted\[(\d+)\]$", c)
@@ -559,6 +599,17 @@ class Exec:
                 if pv[0] == "named":
                     return self.const(pv[1], st)
         if self.mf is not None and re.match(r"^[A-Za-z_][\w:{}#<>', ]*$", c):
+            cache = self.mf.__dict__.setdefault("_named_const_cache", {})
+            if c in cache:
+                return cache[c]
+            res = self._named_const(c, st)
+            if res is not None:
+                cache[c] = res
+                return res
+        return Opaque("const " + c[:80]), None
+
+    def _named_const(self, c, st):
+        if True:
             # a named numeric constant of the crate: evaluate its const item from the MIR dump
             segs = re.sub(r"::<[^<>]*>", "", c).split("::")
             for name in ("::".join(segs[-2:]), segs[-1]):
@@ -580,7 +631,7 @@ class Exec:
                 res = subcall(self, State(), cf, [])
                 if isinstance(res, list) and len(res) == 1:
                     return res[0][0], None
-        return Opaque("const " + c[:80]), None
+        return None
 
     def closure_operands(self, rhs, ops):
         """rustc's MIR printer names closure captures by their root variable and prints ONE operand per name: with disjoint field
@@ -1073,6 +1124,11 @@ class Exec:
                 if not self.feasible(n.pc, z3.And(cons)):
                     continue
                 n.pc += cons
+            if isinstance(val, str) and val.startswith("PANIC:"):
+                # one alternative of the callee panics (e.g. division by zero) under `cons`
+                n.events.append("panic:" + val[6:66])
+                self.end("panic", n, None, val[6:])
+                continue
             if ev:
                 n.events.append(ev)
             if dst:
@@ -1252,6 +1308,27 @@ def m_res_is_ok(ex, st, a, dst, callee):
     if isinstance(v, Enum) and v.variant in ("Ok", "Err"):
         good = v.variant == "Ok"
         return [(TRUE if good == callee.endswith("is_ok") else FALSE, [], None)]
+    return None
+
+
+def m_range_next(ex, st, a, dst, callee):
+    """<Range<int> as Iterator>::next: yields `start` and advances while start < end (forks when the comparison is symbolic)."""
+    r = deref_val(ex, st, a[0])
+    if not (isinstance(r, Struct) and r.name == "Range" and z3.is_bv(r.fields[0])):
+        return None
+    s_, e_ = r.fields[0], r.fields[1]
+    signed = bool(re.search(r"Range<i", callee))
+    lt = (s_ < e_) if signed else z3.ULT(s_, e_)
+    adv = Struct("Range", {0: s_ + 1, 1: e_})
+    return [(("ADV", a[0], adv, Enum("Some", [s_])), [lt], None), (Enum("None"), [z3.Not(lt)], None)]
+
+
+def m_unwrap_or(ex, st, a, dst, callee):
+    v = a[0]
+    if isinstance(v, Enum) and v.variant in ("Some", "Ok"):
+        return [(v.fields[0], [], None)]
+    if isinstance(v, Enum) and v.variant in ("None", "Err"):
+        return [(a[1], [], None)]
     return None
 
 
@@ -1446,6 +1523,43 @@ def m_int_arith(ex, st, a, dst, callee):
     return [(z3.If(ovf, z3.If(neg, bv(lo, w), bv(hi, w)), res), [], None)]
 
 
+def m_int_div(ex, st, a, dst, callee):
+    """checked_/wrapping_ div and rem of machine integers (Rust semantics: truncating division, None on /0 and MIN/-1)."""
+    m = re.search(r"num::<impl (\w+)>::(checked|wrapping)_(div|rem)$", callee)
+    if not m or m.group(1) not in INT_W:
+        return None
+    t, mode, op = m.group(1), m.group(2), m.group(3)
+    x, y = _dv(ex, st, a[0]), _dv(ex, st, a[1])
+    if not (isinstance(x, z3.BitVecRef) and isinstance(y, z3.BitVecRef)):
+        return None
+    w = x.size()
+    signed = t in SIGNED
+    if signed:
+        res = (x / y) if op == "div" else z3.SRem(x, y)
+        ovf = z3.And(x == bv(-(1 << (w - 1)), w), y == bv(-1, w))
+    else:
+        res = z3.UDiv(x, y) if op == "div" else z3.URem(x, y)
+        ovf = z3.BoolVal(False)
+    zero = y == bv(0, w)
+    if mode == "checked":
+        bad = z3.Or(zero, ovf)
+        return [(Enum("Some", [res]), [z3.Not(bad)], None), (Enum("None"), [bad], None)]
+    wrapped = z3.If(ovf, x if op == "div" else bv(0, w), res)
+    return [(wrapped, [z3.Not(zero)], None), ("PANIC:attempt to divide by zero", [zero], None)]
+
+
+def m_div_ceil(ex, st, a, dst, callee):
+    x, y = _dv(ex, st, a[0]), _dv(ex, st, a[1])
+    if not (isinstance(x, z3.BitVecRef) and isinstance(y, z3.BitVecRef)):
+        return None
+    w = x.size()
+    xs, ys = z3.simplify(x), z3.simplify(y)
+    if z3.is_bv_value(xs) and z3.is_bv_value(ys) and ys.as_long() != 0:
+        return [(bv(-(-xs.as_long() // ys.as_long()), w), [], None)]
+    res = z3.UDiv(x, y) + z3.If(z3.URem(x, y) != 0, bv(1, w), bv(0, w))
+    return [(res, [y != bv(0, w)], None), ("PANIC:attempt to divide by zero", [y == bv(0, w)], None)]
+
+
 def m_prim_default(ex, st, a, dst, callee):
     m = re.search(r"<(\w+) as Default>::default$", callee)
     if not m:
@@ -1473,6 +1587,8 @@ STD_CMP_MODELS = [
     (r"num::<impl [ui]\d+>::to_le_bytes$", m_to_le_bytes),
     (r"num::<impl [ui]\d+>::from_le_bytes$", m_from_le_bytes),
     (r"num::<impl \w+>::(overflowing|wrapping|checked|saturating)_(add|sub|mul|neg)$", m_int_arith),
+    (r"num::<impl \w+>::(checked|wrapping)_(div|rem)$", m_int_div),
+    (r"num::<impl u(?:\d+|size)>::div_ceil$", m_div_ceil),
     (r"<\w+ as Ord>::cmp$", m_ord_cmp),
     (r"<f64 as PartialOrd>::partial_cmp$", m_f64_partial_cmp),
     (r"f64>::is_nan$|f64::is_nan$", m_f64_pred(z3.fpIsNaN)),
@@ -1499,6 +1615,9 @@ GENERIC_MODELS = [
     (r"Vec::<.*>::is_empty$", m_vec_is_empty),
     (r"mem::take::<", m_take),
     (r"Result::<.*>::is_ok$|Result::<.*>::is_err$", m_res_is_ok),
+    (r"(?:Option|Result)::<.*>::unwrap_or$", m_unwrap_or),
+    (r"^<std::ops::Range<[ui](?:\d+|size)> as IntoIterator>::into_iter$", m_identity),
+    (r"^<std::ops::Range<[ui](?:\d+|size)> as Iterator>::next$", m_range_next),
     (r"Option::<.*>::is_none$", m_opt_is_none),
     (r"Option::<.*>::is_some$", m_opt_is_some),
 ]
